@@ -26,8 +26,20 @@ def nontrivial(impl):
 
 CHECK = ScenarioCheck(
     "C02", ["SimVerif.Props.C02"], "kernel", gen.generate, spec_c02, nontrivial,
-    "random reactive kernel programs (1-6 timers; expires_at/after incl. past/now/tie, wait, cancel, destroy, post/defer/dispatch, stop/restart, ops at step-hook boundaries) + exhaustive op sequences over a 11-op alphabet on 2 timers; non-trivial = at least 2 handler invocations and one idle point; distinct = distinct implementation trace",
+    "random reactive kernel programs (1-6 timers; expires_at/after incl. past/now/tie, wait, cancel, destroy, post/defer/dispatch, stop/restart, ops at step-hook boundaries) + a family with 2-4 waits pending together (equal expiries, arming order independent of wait order) + a stop/restart family (stop from a handler / step hook / clock-step hook / top with >= 2 waits pending, restart from top or inside the same run, always ending restart, run) + exhaustive op sequences over a 11-op alphabet on 2 timers, alone and after a 4-op prefix that leaves two waits tied; non-trivial = at least 2 handler invocations and one idle point; distinct = distinct implementation trace",
     TRUSTED, ASSUME)
+
+def _extra_cov(results):
+    tot, scn = {}, {}
+    for i, r in results.items():
+        try: st = spec.check_lines(r["impl"] or [])[2]
+        except Exception: continue
+        for k, v in st.items():
+            tot[k] = tot.get(k, 0) + v
+            if v: scn[k] = scn.get(k, 0) + 1
+    return dict(monitor_counters=tot, monitor_counters_scenarios=scn)
+
+CHECK.extra_cov = _extra_cov
 
 def run(tier, seed, replay):
     return CHECK.run(tier, seed, replay)
